@@ -82,7 +82,61 @@ def run(ctx):
         if not all(main.dominates(ob, h_) for h_ in emit_loop) or not main.dominates(ob, hh) or ib in lps_[hh][0]:
             return None
         return hh
-    staged_origin = origin_staged()
+    def origin_chained():
+        """the origin goes in front of the emitted words through the iterator itself: ONE loop over `once(origin).chain(words)` converts
+        and writes each element; `origin` is the recorded origin or the default, `words` the vector of emitted words. Returns the header of
+        that loop, else None."""
+        lps_ = kit.loops(main)
+        if len(conv_w) != 1:
+            return None
+        cb = conv_w[0][0]
+        hdrs = [hh for hh, (body, l) in lps_.items() if cb in body and main.term(hh)["k"] == "call" and (callee_of(main.term(hh)) or "").endswith("::next")
+                and re.search(r"adapters::chain::Chain<core::iter::sources::once::Once<u16>, *(alloc::vec::into_iter::IntoIter<u16>|core::slice::iter::Iter<)", (main.term(hh).get("arg_tys") or [""])[0])]
+        if len(hdrs) != 1:
+            return None
+        hh = hdrs[0]
+        src = main.expr(main.term(hh)["args"][0], 12, stop={"named"})
+        for x in list(expr_walk(src)):
+            if x[0] == "local" and "chain::Chain<" in main.local_ty(x[1]):          # the `for` desugaring names its iterator
+                sd_ = main.single_def(x[1])
+                if sd_ and sd_[0] == "call":
+                    src = ("call", callee_of(sd_[3]), tuple(main.expr(a_, 10, stop={"named"}) for a_ in sd_[3]["args"]))
+                elif sd_ and sd_[0] == "stmt":
+                    src = main.rvalue_expr(sd_[3]["r"], 10, stop={"named"})
+        chains = [x for x in expr_walk(src) if x[0] == "call" and re.search(r"Iterator>?::chain$", str(x[1])) and len(x[2]) == 2]
+        if len(chains) != 1:
+            return None
+        first, second = chains[0][2]
+        onces = [x for x in expr_walk(first) if x[0] == "call" and str(x[1]).endswith("iter::sources::once::once") and len(x[2]) == 1]
+        if len(onces) != 1:
+            return None
+        head = kit.strip_refs(onces[0][2][0])
+        def from_orig(e_):
+            if "orig(" in expr_str(e_, 300):
+                return True
+            if e_[0] == "local":          # `let header = if let Some(o) = air.orig() { o } else { 0x3000 }`
+                ds_ = main.defs().get(e_[1], [])
+                vals = [expr_str(main.rvalue_expr(d_[3]["r"], 10), 200) if d_[0] == "stmt" else "?" for d_ in ds_]
+                return bool(ds_) and any("orig(" in v_ for v_ in vals) and all("orig(" in v_ or re.fullmatch(r"(0x)?[0-9a-fA-F]+(_u16)?", v_) for v_ in vals)
+            return False
+        if not from_orig(head):
+            return None
+        vecs = {x[1] for x in expr_walk(second) if x[0] == "local" and "Vec<u16>" in main.local_ty(x[1])}
+        if len(vecs) != 1:
+            vs_ = {x for x in expr_walk(second) if x[0] == "call" and str(x[1]).endswith("collect")}
+            return hh if vs_ and "emit" in expr_str(second, 400) else None
+        v = vecs.pop()
+        pushes = [(b_, t_, c_) for b_, t_, c_ in main.calls() if b_ in region and c_ and re.search(r"Vec::<T, A>::(push|insert|extend_from_slice|append|extend|remove|pop|truncate|clear|swap_remove|retain)$", c_)
+                  and any(x[0] == "local" and x[1] == v for x in expr_walk(main.expr(t_["args"][0], 4, stop={"named"})))]
+        if pushes:
+            if len(pushes) != 1 or not pushes[0][2].endswith("::push") or "emit(" not in expr_str(main.expr(pushes[0][1]["args"][1], 12), 300):
+                return None
+            if not any(pushes[0][0] in body for h_, (body, l) in lps_.items()) or pushes[0][0] in lps_[hh][0]:
+                return None
+        elif "emit" not in expr_str(main.local_expr(v, 12), 400):
+            return None
+        return hh
+    staged_origin = origin_staged() or origin_chained()
 
     # ------------------------------------------------------------------ R1
     ctx.rule("C06.R1", "one byte order: writer to_be_bytes, loader from_be_bytes([b0, b1]) over chunks of 2", floor=3)
